@@ -164,8 +164,6 @@ def lit(v):
             if '.' not in mant:
                 mant += '.0'
             s = '%sE%s%d' % (mant, '-' if int(ex) < 0 else '', abs(int(ex)))
-            if int(ex) < 0 and not (v < 0):
-                s = '(%s)' % s     # see sub-space e: a bare negative exponent inside a formula is a known finding
         elif '.' not in s:
             s += '.0'
         assert float(s.replace('E', 'e').strip('()')) == abs(v)
